@@ -65,6 +65,9 @@ package keeper
 //@ // total withdrawable of the first n pools of a row
 //@ spec func sumWd(il [int]int, s [int]int, w [int]int, le [int]int, t int, n int) int =
 //@   n <= 0 ? 0 : sumWd(il, s, w, le, t, n - 1) + wdOf(il[n - 1], s[n - 1], w[n - 1], le[n - 1], t)
+//@ // number of pools among the first n that pay out something
+//@ spec func cntPaying(il [int]int, s [int]int, w [int]int, le [int]int, t int, n int) int =
+//@   n <= 0 ? 0 : cntPaying(il, s, w, le, t, n - 1) + (wdOf(il[n - 1], s[n - 1], w[n - 1], le[n - 1], t) > 0 ? 1 : 0)
 //@ // per-pool solvency (C05): 0 <= W, 0 <= S, W + S <= IL
 //@ pred poolsOK(o) = $pLen[o] >= 0 && (forall i :: {$pIL[o][i]} 0 <= i && i < $pLen[o] ==> $pW[o][i] >= 0 && $pS[o][i] >= 0 && $pW[o][i] + $pS[o][i] <= $pIL[o][i])
 //@ pred poolUnchanged(o, i) = $pName[o][i] == old($pName[o][i]) && $pType[o][i] == old($pType[o][i]) && $pLockStart[o][i] == old($pLockStart[o][i])
@@ -100,11 +103,16 @@ package keeper
 //@   ensures returnedError == nil && fromBech32(owner) != modaddr("cfevesting") ==> $bal[modaddr("cfevesting")][$vestingDenom] == old($bal[modaddr("cfevesting")][$vestingDenom]) - withdrawn.Amount
 //@   ensures returnedError == nil && fromBech32(owner) != modaddr("cfevesting") ==> $bal[fromBech32(owner)][$vestingDenom] == old($bal[fromBech32(owner)][$vestingDenom]) + withdrawn.Amount
 //@   ensures forall a: str :: {$bal[a]} a != modaddr("cfevesting") && a != fromBech32(owner) ==> $bal[a] == old($bal[a])
-//@   prop C06 C05 C20
+//@   prop C06 C05 C20 C18
 //@ loop Keeper.WithdrawAllAvailable#1
 //@   invariant 0 <= \i && \i <= len(accVestingPools.VestingPools)
 //@   invariant !toWithdraw.IsNil() && toWithdraw == sumWd($pIL[owner], $pS[owner], $pW[owner], $pLockEnd[owner], $blockTime, \i) && toWithdraw >= 0
 //@   invariant poolsSane(owner) ==> toWithdraw <= \i * 1000000000000000000000000000000000000000000000000000000000000
+//@   // C18: one event per paying pool among the first \i, each carrying that pool's own amount
+//@   invariant len(events) == cntPaying($pIL[owner], $pS[owner], $pW[owner], $pLockEnd[owner], $blockTime, \i)
+//@   invariant forall k :: {events[k].Amount} 0 <= k && k < len(events) ==> (exists j :: 0 <= j && j < \i && events[k].Owner == owner && events[k].VestingPoolName == $pName[owner][j]
+//@     && wdOf($pIL[owner][j], $pS[owner][j], $pW[owner][j], $pLockEnd[owner][j], $blockTime) > 0
+//@     && events[k].Amount == intString(wdOf($pIL[owner][j], $pS[owner][j], $pW[owner][j], $pLockEnd[owner][j], $blockTime)) + $vestingDenom)
 //@   invariant forall j :: {accVestingPools.VestingPools[j]} \i <= j && j < len(accVestingPools.VestingPools) ==> poolEq(accVestingPools.VestingPools[j], owner, j)
 //@   invariant forall j :: {accVestingPools.VestingPools[j]} 0 <= j && j < \i ==>
 //@     (let p = accVestingPools.VestingPools[j] in p.Name == $pName[owner][j] && p.VestingType == $pType[owner][j] && p.LockStart == $pLockStart[owner][j]
